@@ -73,6 +73,88 @@ def cell_formats(loop):
     return out
 
 
+def oneline(ctx, fn, data_loop, where):
+    """R-ONELINE: the value of a comment attribute (an attribute read under a computed name) reaches the header only through a
+    conversion that removes line breaks - every counted header line is one print, so a break inside a value shifts every count."""
+    ctx.rule('R-ONELINE', 'a comment attribute (read under a computed name) is flattened to one line before it is printed: the declared counts take one line per print')
+    fparam = fn.args.args[0].arg if fn.args.args else 'f'
+    par = {}
+    for n in ast.walk(fn):
+        for ch in ast.iter_child_nodes(n):
+            par[id(ch)] = n
+
+    def stmt_of(n):
+        while id(n) in par and not isinstance(n, ast.stmt):
+            n = par[id(n)]
+        return n
+
+    def flattened(n):
+        """True: an enclosing expression removes the line breaks; None: wrapped by something unknown; False: goes out as it is"""
+        cur = n
+        unknown = False
+        seen_replace = set()
+        while id(cur) in par and not isinstance(par[id(cur)], ast.stmt):
+            p_ = par[id(cur)]
+            if isinstance(p_, ast.Call):
+                fname = dotted(p_.func) or ''
+                attr = p_.func.attr if isinstance(p_.func, ast.Attribute) else None
+                if attr in ('splitlines', 'split') and cur is p_.func:
+                    # ... .splitlines() / .split(): flattened once joined
+                    q = p_
+                    while id(q) in par and not isinstance(par[id(q)], ast.stmt):
+                        qq = par[id(q)]
+                        if isinstance(qq, ast.Call) and isinstance(qq.func, ast.Attribute) and qq.func.attr == 'join' and q in qq.args:
+                            return True
+                        q = qq
+                    unknown = True
+                elif attr == 'replace' and cur is p_.func and p_.args and const_str(p_.args[0]) in ('\n', '\r', '\r\n'):
+                    seen_replace.add(const_str(p_.args[0]))
+                    if {'\n', '\r'} <= seen_replace:
+                        return True
+                elif fname in ('re.sub', 'sub') and len(p_.args) >= 3 and cur is p_.args[2]:
+                    pat = const_str(p_.args[0]) or ''
+                    if ('\\s' in pat) or (('\\n' in pat or '\n' in pat) and ('\\r' in pat or '\r' in pat)):
+                        return True
+                    unknown = True
+                elif fname in ('str', 'repr', 'format') or attr in ('format', 'strip', 'rstrip', 'lstrip', 'join'):
+                    pass
+                elif fname == 'print':
+                    pass
+                else:
+                    unknown = True
+            cur = p_
+        return None if unknown else False
+    dyn = [n for n in ast.walk(fn) if isinstance(n, ast.Call) and dotted(n.func) == 'getattr' and len(n.args) >= 2 and isinstance(n.args[0], ast.Name)
+           and n.args[0].id == fparam and const_str(n.args[1]) is None and n.lineno < data_loop.lineno]
+    nd = 0
+    for g in dyn:
+        st = stmt_of(g)
+        fl = flattened(g)
+        if fl is True:
+            nd += 1
+            ctx.ok('R-ONELINE', norm(g)[:40], where, 'line breaks removed where the value is read: %s' % norm(st)[:70])
+            continue
+        if fl is False and isinstance(st, ast.Assign) and len(st.targets) == 1 and isinstance(st.targets[0], ast.Name):
+            name = st.targets[0].id
+            block = par.get(id(st))
+            uses = [u for u in ast.walk(block) if isinstance(u, ast.Name) and u.id == name and isinstance(u.ctx, ast.Load) and u.lineno >= st.lineno] if block is not None else []
+            verdicts = [flattened(u) for u in uses]
+            if uses and all(v is True for v in verdicts):
+                nd += 1
+                ctx.ok('R-ONELINE', norm(g)[:40], where, 'every use of %s removes the line breaks' % name)
+                continue
+            if uses and any(v is None for v in verdicts) and not any(v is False for v in verdicts):
+                fl = None
+        if fl is None:
+            nd += 1
+            ctx.undec('R-ONELINE', norm(g)[:40], where, 'the value passes through a call this rule does not know: %s' % norm(st)[:70])
+            continue
+        nd += 1
+        ctx.violation(Finding('R-ONELINE', RP, W, st, 'the value of a comment attribute (%s) is printed as it is: a value with a line break (a netCDF history, a long array) '
+                              'occupies several lines while the declared header and comment counts take one line per attribute, so the output does not re-open' % norm(g)))
+    ctx.floor('comment-attribute reads judged by R-ONELINE', nd, 1)
+
+
 def misscell(ctx, fn, data_loop, cells, where):
     """R-MISSCELL: a cell that holds the missing code is written with the digits of the declared code.
     Returns the conversions that write such cells ([] when they are not singled out)."""
@@ -691,6 +773,7 @@ def run(ctx):
                                       'that carries such an attribute come back multiplied by it' % norm(elt)[:50]))
     # ---- R-MISSFMT: the declared code is written with at least the precision of the data cells that carry it
     ctx.rule('R-MISSFMT', 'the declared missing code is converted to text with at least as many significant digits as the data cells')
+    oneline(ctx, fn, data_loop, where)
     cells = cell_formats(data_loop)
     lossy = [(c, f, k) for c, f, k in cells if fmt_sig(f) is None or fmt_sig(f) < 17]
     # cells that hold the missing code: written like the other cells unless R-MISSCELL finds them singled out
